@@ -106,6 +106,9 @@ pub struct AnsTrace {
     /// published vector: the decoded symbols must equal these (C06)
     #[serde(default)]
     pub expect_decoded: Option<Vec<i64>>,
+    /// representation in which model i is handed to the coder (missing = the plain owner)
+    #[serde(default)]
+    pub reprs: Vec<Repr>,
 }
 
 // ---------------------------------------------------------------------------------------
@@ -352,7 +355,8 @@ fn exec_cfg<C: Ws>(t: &AnsTrace, ctx: &mut Ctx, skip_inspect: bool) -> Result<Ru
     let built: Vec<Option<Built>> = t
         .models
         .iter()
-        .map(|s| if (s.pb as u32) <= C::WB { build_caught(s, Repr::Plain) } else { None })
+        .enumerate()
+        .map(|(i, s)| if (s.pb as u32) <= C::WB { build_caught(s, t.reprs.get(i).cloned().unwrap_or(Repr::Plain)) } else { None })
         .collect();
     let (coder, r) = match &t.init {
         Init::Empty => (Coder::<C>::from_words(&t.backend, &[]), RefAns::empty(C::WB, C::SB)),
@@ -461,6 +465,13 @@ impl<'t, C: Ws> World<'t, C> {
         ctx.stats.state(h);
         let x = self.coder.state();
         let bulk_len = self.coder.bulk_len();
+        // very long messages: the O(n) observations below run at every 37th operation only
+        if bulk_len > 4000 && ctx.op % 37 != 0 {
+            if ctx.on("C12") {
+                self.check_c12(ctx, false)?;
+            }
+            return Ok(());
+        }
         // C01 oracle 4: the documented state invariant, through the public accessors
         if ctx.on("C01") && bulk_len != 0 && x < (1u128 << (C::SB - C::WB)) {
             viol!(ctx, "C01", "state-invariant-broken", "state={:#x} with non-empty bulk (len {})", x, bulk_len);
@@ -690,7 +701,8 @@ impl<'t, C: Ws> World<'t, C> {
                     ctx.stats.hit("skipped-op");
                     return Ok(());
                 }
-                if ctx.on("C09") {
+                if ctx.on("C09") && self.n_enc <= 2000 {
+                    // (clones of the coder: not for the very long messages of C12-style runs)
                     self.enumerate_faults_here(*m, *sym, ctx)?;
                 }
                 // (O(n) observations are skipped where the active property does not use them:
@@ -1631,6 +1643,13 @@ pub fn generate(seed: u64, prop: &str, thorough: bool) -> AnsTrace {
         built.push(build_caught(&spec, Repr::Plain).expect("gen_spec returns buildable specs"));
         models.push(spec);
     }
+    // C09: the models reach the coder in any representation that can encode (lazily
+    // evaluated, generic encoder, non-contiguous, rebuilt from the symbol table, ...)
+    let reprs: Vec<Repr> = if prop == "C09" && bias.chance(1, 2) {
+        models.iter().map(|m| { let e = crate::skew::reprs_for(m).0; *bias.pick(&e) }).collect()
+    } else {
+        Vec::new()
+    };
     let backend = bias.pick(&g.backends).clone();
     let init = {
         let r = rng.below(100);
@@ -1661,7 +1680,7 @@ pub fn generate(seed: u64, prop: &str, thorough: bool) -> AnsTrace {
         // thousands of symbols to use up the constant of the bound
         let n = if bias.chance(1, if thorough { 10 } else { 40 }) { 20_000 + rng.usize(30_000) } else { n_ops.max(200).min(2000) };
         let ops = crate::for_cfg!(cfg, |C| greedy_c12_ops::<C>(&mut rng, &built, n));
-        return AnsTrace { cfg, backend, init, models, ops, expect: None, expect_decoded: None };
+        return AnsTrace { cfg, backend, init, models, ops, expect: None, expect_decoded: None, reprs: Vec::new() };
     }
     if prop == "C04" {
         // bits-back shape: decode k, (reload / inspect sprinkled in), encode back in reverse
@@ -1690,7 +1709,7 @@ pub fn generate(seed: u64, prop: &str, thorough: bool) -> AnsTrace {
             ops.push(AnsOp::Inspect { view: View::BinaryDecoders, n: 1 + rng.usize(8) });
         }
         let _ = sb;
-        return AnsTrace { cfg, backend, init, models, ops, expect: None, expect_decoded: None };
+        return AnsTrace { cfg, backend, init, models, ops, expect: None, expect_decoded: None, reprs: Vec::new() };
     }
 
     let total = g.w_enc + g.w_dec + g.w_enc_batch + g.w_dec_batch + g.w_reload + g.w_clone + g.w_inspect + g.w_snapshot + g.w_seek + g.w_badsym + g.w_fault + g.w_clear;
@@ -1809,5 +1828,5 @@ pub fn generate(seed: u64, prop: &str, thorough: bool) -> AnsTrace {
             ops.push(AnsOp::Fault(f));
         }
     }
-    AnsTrace { cfg, backend, init, models, ops, expect: None, expect_decoded: None }
+    AnsTrace { cfg, backend, init, models, ops, expect: None, expect_decoded: None, reprs }
 }
